@@ -52,6 +52,8 @@ pub struct MenuOpt {
     pub recover_forced_groups: bool,
     /// offer SubmitBatch / Withdraw / plain recovery also with a staked-asset coin attached
     pub funded_variants: bool,
+    /// the oracle contract may start rejecting posts (deviation)
+    pub oracle_faults: bool,
     /// the transfer module answers the next transfer with no reply data / undecodable data (deviation)
     pub reply_faults: bool,
     pub fee_withdraw: Vec<Rel>,
@@ -91,6 +93,7 @@ impl MenuOpt {
             recover_forced: false,
             recover_forced_groups: false,
             funded_variants: false,
+            oracle_faults: false,
             reply_faults: false,
             fee_withdraw: vec![Rel::Exact],
             halt_resume: false,
@@ -314,7 +317,10 @@ pub fn std_menu(s: &Sim, o: &MenuOpt) -> Vec<Act> {
             }
         }
     }
-    if o.reply_faults {
+    if o.oracle_faults && s.w.ibc.reply_fault == 0 && dev_left && s.w.config().protocol_chain_config.oracle_address.is_some() {
+        a.push(Act::ReplyFault { mode: 3 });
+    }
+    if o.reply_faults || o.oracle_faults {
         if s.w.ibc.reply_fault != 0 {
             a.push(Act::ReplyFault { mode: 0 });
         } else if dev_left && inflight == 0 {
